@@ -1,27 +1,34 @@
 #!/usr/bin/env python3
 """Runs every seeded change (and reintroduction mutant) against every check, in scratch worktrees (never in /repo).
-usage: tools/seed_matrix.py [-j N] [seed names...]     writes seeded/MATRIX.md and updates seeded/*/meta.json (caught_by)"""
+usage: tools/seed_matrix.py [--refactors] [-j N] [names...]
+Results are kept in <corpus>/matrix.json (one entry per change; a run with names only replaces those entries) and
+rendered to <corpus>/MATRIX.md; seeded/*/meta.json (caught_by) and refactors/*/meta.json (checks_fired) are updated."""
 import concurrent.futures
 import json
 import os
+import queue
 import subprocess
 import sys
 
 VERIF = os.path.dirname(os.path.dirname(os.path.abspath(__file__)))
 PROPS = [c["property_id"] for c in json.load(open(os.path.join(VERIF, "MANIFEST.json")))["checks"]]
+TIMEOUT = int(os.environ.get("MATRIX_CHECK_TIMEOUT", "1500"))
 
 
 def sh(cmd, **kw):
     return subprocess.run(cmd, shell=True, capture_output=True, text=True, **kw)
 
 
-def work(idx, items):
+def work(idx, q, out):
     wt = "/tmp/mx-%d" % idx
-    sh("git -C /repo worktree remove --force %s" % wt)
-    r = sh("git -C /repo worktree add --detach %s HEAD" % wt)
-    out = []
+    sh("git -C /repo worktree remove --force %s; rm -rf %s" % (wt, wt))
+    sh("git -C /repo worktree add --detach %s HEAD" % wt)
     env = dict(os.environ, ANYSCAN_REPO=wt)
-    for name, patch in items:
+    while True:
+        try:
+            name, patch = q.get_nowait()
+        except queue.Empty:
+            break
         sh("git -C %s checkout -- . && git -C %s clean -fdq" % (wt, wt))
         a = sh("git -C %s apply %s" % (wt, patch))
         if a.returncode != 0:
@@ -29,7 +36,11 @@ def work(idx, items):
             continue
         res = {}
         for p in PROPS:
-            c = subprocess.run(["./check", p], cwd=VERIF, env=env, capture_output=True, text=True)
+            try:
+                c = subprocess.run(["./check", p], cwd=VERIF, env=env, capture_output=True, text=True, timeout=TIMEOUT)
+            except subprocess.TimeoutExpired:
+                res[p] = "caught: TIMEOUT after %d s (a check must terminate)" % TIMEOUT
+                continue
             if c.returncode == 2:
                 res[p] = "infra"
             else:
@@ -37,9 +48,10 @@ def work(idx, items):
                 first = next((l for l in c.stdout.splitlines() if ": rule " in l), "")
                 res[p] = ("caught: " + first[:160]) if viol else "silent"
         out.append((name, res, ""))
-    sh("git -C /repo worktree remove --force %s" % wt)
-    sh("rm -rf %s/.cache/target-*-$(python3 -c \"import hashlib;print(hashlib.sha256(b'%s').hexdigest()[:8])\") %s/.cache/facts/*-$(python3 -c \"import hashlib;print(hashlib.sha256(b'%s').hexdigest()[:8])\")" % (VERIF, wt, VERIF, wt))
-    return out
+        print("done", name, " ".join(p for p, v in res.items() if v != "silent") or "-", flush=True)
+    sh("git -C /repo worktree remove --force %s; rm -rf %s" % (wt, wt))
+    tag = __import__("hashlib").sha256(wt.encode()).hexdigest()[:8]
+    sh("rm -rf %s/.cache/target-*-%s %s/.cache/facts/*-%s" % (VERIF, tag, VERIF, tag))
 
 
 def main():
@@ -60,19 +72,31 @@ def main():
             items.append((n, p))
     md = os.path.join(VERIF, "mutants")
     for n in sorted(os.listdir(md) if not refactors else []):
-        if n.endswith(".diff") and (not args or n in args):
+        if n.endswith(".diff") and (not args or "mutant:" + n[:-5] in args or n in args):
             items.append(("mutant:" + n[:-5], os.path.join(md, n)))
-    chunks = [items[i::j] for i in range(j)]
+    q = queue.Queue()
+    for it in items:
+        q.put(it)
     results = []
     with concurrent.futures.ThreadPoolExecutor(j) as ex:
-        for r in ex.map(lambda a: work(*a), list(enumerate(chunks))):
-            results.extend(r)
-    results.sort()
+        futs = [ex.submit(work, i, q, results) for i in range(min(j, max(1, len(items))))]
+        for f in futs:
+            f.result()
+    store_p = os.path.join(sd, "matrix.json")
+    store = json.load(open(store_p)) if os.path.exists(store_p) else {}
+    for name, res, err in results:
+        store[name] = {"res": res, "err": err}
+    # entries whose change no longer exists are dropped
+    present = {n for n in os.listdir(sd) if os.path.exists(os.path.join(sd, n, "patch.diff"))}
+    present |= {"mutant:" + n[:-5] for n in (os.listdir(md) if not refactors else []) if n.endswith(".diff")}
+    store = {k: v for k, v in store.items() if k in present}
+    json.dump(store, open(store_p, "w"), indent=0, sort_keys=True)
+    rows = sorted((k, v["res"], v["err"]) for k, v in store.items())
     if refactors:
         lines = ["# Behaviour-preserving changes x checks", "",
                  "Every change here keeps all behaviour (differential demonstration by its author, patch read by me); a check that fires on one is a FALSE ALARM.",
-                 "Produced by tools/seed_matrix.py --refactors.", "", "| change | kind | checks that fire | first report |", "|---|---|---|---|"]
-        for name, res, err in results:
+                 "Produced by tools/seed_matrix.py --refactors (%d changes)." % len(rows), "", "| change | kind | checks that fire | first report |", "|---|---|---|---|"]
+        for name, res, err in rows:
             if res is None:
                 lines.append("| %s | | %s | |" % (name, err))
                 continue
@@ -85,18 +109,18 @@ def main():
             m["checks_fired"] = fired
             json.dump(m, open(mp, "w"), indent=1)
         open(os.path.join(sd, "MATRIX.md"), "w").write("\n".join(lines) + "\n")
-        print("\n".join(lines))
+        print("\n".join(l for l in lines if "| - |" not in l))
         return
     lines = ["# Seeded changes x checks", "",
              "`caught` = the check exits 1 with a VIOLATION line when the change is applied to a scratch copy of /repo HEAD; `-` = silent.",
-             "Produced by tools/seed_matrix.py.", "", "| change | home property | caught by | silent home? |", "|---|---|---|---|"]
-    for name, res, err in results:
+             "Produced by tools/seed_matrix.py (%d changes)." % len(rows), "", "| change | home property | caught by | silent home? |", "|---|---|---|---|"]
+    for name, res, err in rows:
         if res is None:
             lines.append("| %s | | %s | |" % (name, err))
             continue
         home = name.split("-")[0] if not name.startswith("mutant:") else ""
         caught = [p for p, v in res.items() if v.startswith("caught")]
-        lines.append("| %s | %s | %s | %s |" % (name, home, " ".join(caught) or "-", "MISSED" if home and home in res and home not in caught else ""))
+        lines.append("| %s | %s | %s | %s |" % (name, home, " ".join(caught) or "-", "MISSED" if (home and home in res and home not in caught) or not caught else ""))
         if not name.startswith("mutant:"):
             mp = os.path.join(sd, name, "meta.json")
             m = json.load(open(mp))
@@ -104,7 +128,7 @@ def main():
             m["checks_run"] = "tools/seed_matrix.py: patch applied to a scratch worktree of /repo HEAD, `./check <P>` (quick tier) for every claimed property"
             json.dump(m, open(mp, "w"), indent=1)
     open(os.path.join(sd, "MATRIX.md"), "w").write("\n".join(lines) + "\n")
-    print("\n".join(lines))
+    print("\n".join(l for l in lines if "MISSED" in l or "does not apply" in l))
 
 
 if __name__ == "__main__":
